@@ -16,7 +16,7 @@ def case_line(layer, mode, steps, prog, stdin):
 def gen_cases(rng, n):
     cases = [(tag, prog, stdin) for tag, prog, stdin in G.templates(rng)]
     cases += G.boundary_programs()
-    for _ in range(max(10, n // 4)):
+    for _ in range(max(10, n)):
         cases.append(("scripted", S.scripted(rng), G.gen_stdin(rng)))
     for _ in range(max(10, n // 8)):
         cases.append(("branch", S.branch(rng), ""))
